@@ -138,6 +138,35 @@ def chain_pairs_font(rng, k):
     return {"ufo": ufo, "q": 1, "groupsAbs": [], "writer": "kern1", "declared": ["DFLT"] + [tags[sc] for sc in scripts]}
 
 
+def rtl_inherited_font(rng, k, writer="kern1"):
+    """Hebrew (or Arabic) letters kerned against combining marks whose Script property is Inherited ONLY (U+0327, U+0335,
+    U+20D0 -- no script extensions) on the SECOND side: as a glyph key, as a member of a kern2 group next to a genuine
+    Hebrew point, and in a glyph-to-group exception."""
+    heb = k % 3 != 2
+    letters = [("alef-hb", 0x5D0), ("bet-hb", 0x5D1), ("gimel-hb", 0x5D2)] if heb else [("alef-ar", 0x627), ("beh-ar", 0x628), ("lam-ar", 0x644)]
+    point = ("hiriq-hb", 0x5B4) if heb else ("alefabove-ar", 0x670)
+    inh = [("cedillacomb", 0x327), ("strokeshortcomb", 0x335), ("harpoonleftcomb", 0x20D0)]
+    inh = inh[k % 3:] + inh[:k % 3]
+    gl = letters + [point] + inh[:2] + [("period", 0x2E)]
+    names = [n for n, _ in gl]
+    glyphs = {n: {"cs": [box()], "comps": [], "anchors": [], "w": (0 if (n.endswith("comb") or n == point[0]) else rng.randint(300, 600)) * PS,
+                  "h": 0, "u": [cp]} for n, cp in gl}
+    a, b, c = (n for n, _ in letters)
+    m1, m2 = inh[0][0], inh[1][0]
+    groups = [{"name": "public.kern1.H", "side": 1, "members": [b, c]}, {"name": "public.kern2.M", "side": 2, "members": [m1, point[0]]}]
+    v = lambda: rng.choice([-30, -40, -50, 24]) * 4  # noqa
+    entries = [[a, m1, v()], ["public.kern1.H", "public.kern2.M", v()], [c, "public.kern2.M", v()], [a, "period", 20 * 4], [a, m2, v()],
+               [a, point[0], v()]]
+    lib = {}
+    if k % 2:
+        lib["public.openTypeCategories"] = {n: ("mark" if glyphs[n]["w"] == 0 else "base") for n in names}
+    fea = "languagesystem DFLT dflt;\nlanguagesystem %s dflt;" % ("hebr" if heb else "arab") if k % 4 < 2 else ""
+    ufo = {"glyphs": glyphs, "order": names, "glyphNames": names,
+           "info": {"unitsPerEm": 1000, "ascender": 800, "descender": -200, "familyName": "RtlInherited", "styleName": "Regular"},
+           "kerning": entries, "kernScale": 4, "groups": [[g["name"], g["members"]] for g in groups], "fea": fea, "lib": lib}
+    return {"ufo": ufo, "q": 1, "groupsAbs": groups, "writer": writer}
+
+
 def kerning_font(rng, writer="kern1", lang_first=False):
     """abstract ufo + kerning description; values at scale 4 (quarter units).
     lang_first: Latin + marks, a non-default language of 'latn' declared before (or without) its default language system,
